@@ -446,7 +446,12 @@ class Array(metaclass=MetaArray):
             shape = cls._shape
         if not cls._is_static_type:
             items = np.prod(shape)
-            self._offsets = Int64._array_from_buffer(buffer, coffset, items)
+            order = mk_order(cls._order, shape)
+            self._offsets = (
+                Int64._array_from_buffer(buffer, coffset, items)
+                .reshape([shape[io] for io in order])
+                .transpose([order.index(ii) for ii in range(len(order))])
+            )
         return self
 
     @classmethod
@@ -470,8 +475,13 @@ class Array(metaclass=MetaArray):
             )
             coffset += 8 * len(header)
         if not cls._is_static_type:
-            Int64._array_to_buffer(buffer, coffset, info.offsets)
-            coffset += 8 * len(info.offsets)
+            # offsets are cached in index space and stored in memory order
+            Int64._array_to_buffer(
+                buffer,
+                coffset,
+                np.ascontiguousarray(info.offsets.transpose(info.order)),
+            )
+            coffset += 8 * info.offsets.size
         if hasattr(cls._itemtype, "_dtype") and hasattr(
             value, "dtype"
         ):  # is a scalar type:
